@@ -66,7 +66,14 @@ Definition init0 : state := init_state [].
         os.path.exists(d) and os.path.getmtime(d) <= os.path.getmtime(vo) for d in deps)
     if fresh:
         return True, "", info
-    with open(path, "w") as f:
-        f.write(body)
-    rc, log = pv.run(["timeout", "600", "coqc", "-R", ".", "PanVerif", "-w", "-all", "gen/%s.v" % pv.WORLD], cwd=pv.COQ)
+    with pv.coq_lock():
+        # (another check may have rebuilt it while this one waited)
+        old = open(path).read() if os.path.exists(path) else None
+        if old == body and os.path.exists(vo) and all(os.path.exists(d) and os.path.getmtime(d) <= os.path.getmtime(vo) for d in deps):
+            return True, "", info
+        tmp = path + ".%d.tmp" % os.getpid()
+        with open(tmp, "w") as f:
+            f.write(body)
+        os.replace(tmp, path)
+        rc, log = pv.run(["timeout", "600", "coqc", "-R", ".", "PanVerif", "-w", "-all", "gen/%s.v" % pv.WORLD], cwd=pv.COQ)
     return rc == 0, log, info
